@@ -69,9 +69,21 @@ def run_case(case):
     try:
         st = mod.TextFileStorage(d, number_of_data=case.get("presize"))
 
-        def proc(pi, prog):
-            me = copy.copy(st)
+        def fork_copy(obj):
+            """what fork() gives a child: the shared objects (manager list, values, lock - fakes here) stay shared, every
+            plain container of the object is the child's own copy"""
+            me = copy.copy(obj)
+            for k, v in list(me.__dict__.items()):
+                if type(v) in (dict, list, set):
+                    try:
+                        me.__dict__[k] = copy.deepcopy(v)
+                    except Exception:  # noqa  (e.g. open file objects inside)
+                        me.__dict__[k] = copy.copy(v)
             me._opened_files_for_reading = []
+            return me
+
+        def proc(pi, prog):
+            me = fork_copy(st)
             if not any(op[0] == 0 for op in prog):
                 me.reader_only = True
             out = outs.setdefault(pi, [])
@@ -108,6 +120,21 @@ def run_case(case):
             # the parent, after every child has finished: a reader-only view, then flush
             proc(len(case["progs"]), case["final"])
             final["files_before"] = sorted(os.listdir(d))
+            # a process that only reads and lives on across the flushes: it looks at ids 0..2 now, closes (flush() wants
+            # the storage closed everywhere), and must see the new epochs afterwards
+            rdr = fork_copy(st)
+            rdr.reader_only = True
+
+            def look(g):
+                try:
+                    return rdr[g]
+                except IndexError:
+                    return "IndexError"
+                except Exception as ex:  # noqa
+                    return "raised " + type(ex).__name__
+            for g in range(3):
+                look(g)
+            rdr.close()
             st.flush()
             final["files_after"] = sorted(os.listdir(d))
             final["len_after"] = len(st)
@@ -120,9 +147,13 @@ def run_case(case):
                     st[1] = "one%d" % rnd
                     st[0] = "zero%d" % rnd
                     again.append([len(st), 1 if st.is_contiguous() else 0, st[0], st[1], list(st)])
+                    again.append(["survivor", look(0), look(1), look(2)])
+                    rdr.close()
                     st.close()
                     st.flush()
                     again.append(sorted(os.listdir(d)))
+                    again.append(["survivor", look(0)])
+                    rdr.close()
             except Exception as ex:  # noqa
                 again.append(["raised", repr(ex)])
             final["again"] = again
@@ -241,7 +272,7 @@ class P(Prop):
                    "each process opens the storage itself (no writer handle is inherited through fork)"]
     rule = ("One case = optional pre-sized index x 1-3 writer programs and 0-2 reader programs (writes with ids in any order, gaps, duplicates "
             "across and inside processes; reads of stored / not yet stored / never stored ids; len, is_contiguous, iteration) x scheduling "
-            "policy and seed, then - after all children finished - a parent that reads every id, len, is_contiguous, iterates, and flushes.  "
+            "policy and seed, then - after all children finished - a parent that reads every id, len, is_contiguous, iterates, and flushes; the storage is then used again for two epochs, and a reader-only process that looked at the ids before the first flush must see each new epoch (and IndexError after each flush).  Logical processes are fork-faithful copies of the storage object (shared fakes stay shared, plain containers are duplicated).  "
             "VIOLATION when a read returns anything but IndexError or exactly the text stored under that id (IndexError only if the write "
             "had not completed before the read started), a duplicate write does not raise ValueError or changes something, the quiescent "
             "len / is_contiguous / iteration differ from the reference, flush leaves a file or a non-zero len, a process raises or the run "
@@ -373,7 +404,8 @@ class P(Prop):
         f = o["final"]
         if f.get("files_after") or f.get("len_after") != 0:
             return "flush left %s, len %s" % (f.get("files_after"), f.get("len_after"))
-        if f.get("again") != [[2, 1, "zero0", "one0", ["zero0", "one0"]], [], [2, 1, "zero1", "one1", ["zero1", "one1"]], []]:
+        if f.get("again") != [[2, 1, "zero0", "one0", ["zero0", "one0"]], ["survivor", "zero0", "one0", "IndexError"], [], ["survivor", "IndexError"],
+                              [2, 1, "zero1", "one1", ["zero1", "one1"]], ["survivor", "zero1", "one1", "IndexError"], [], ["survivor", "IndexError"]]:
             return "after flush the storage did not behave like a new one: %s" % (f.get("again"),)
         return None
 
